@@ -36,6 +36,8 @@ const SEEDS: &[&str] = &[
     "coroutine gen<T>[resume = (), yield = u32] { upvars [T; ()] witnesses exists<'a> [&'a T] }",
     "trait Iterator { type Item; } struct Vec<T> {} impl<T> Iterator for Vec<T> { type Item = T; } struct Wrap<T> where T: Iterator<Item = u32> { f: <T as Iterator>::Item }",
     "#[non_enumerable] #[object_safe] trait Obj {} #[marker] trait M {} #[coinductive] trait Co {} impl<T> Co for T where T: Co {} unsafe extern \"C\" fn g(x: u8, ...) -> !;",
+    "trait Foo {} trait Gat { type A<'a, U>: Foo; type B<T>; } struct S {} struct W<T> where T: Gat, <T as Gat>::B<u8>: Foo { f: <T as Gat>::A<'static, T> } impl Gat for S { type A<'a, U> = &'a U; type B<T> = W<T>; } impl<T> Foo for T where T: Gat<B<T> = S> {}",
+    "trait Iter { type Item<'a>; } struct V<T> {} impl<T> Iter for V<T> { type Item<'a> = &'a T; } opaque type It<T>: Iter<Item<'static> = T> = V<T>; fn next<'a, T>(it: &'a V<T>) -> <V<T> as Iter>::Item<'a> where dyn Iter<Item<'a> = u8> + 'a: Iter;",
 ];
 
 const GOALS: &[&str] = &[
@@ -46,22 +48,35 @@ const GOALS: &[&str] = &[
     "forall<'a, 'b> { if ('a: 'b; T: 'a) { &'a T: Foo } }",
     "exists<T> { T: Iterator<Item = u32>, <T as Iterator>::Item = u32, dyn Foo + 'static: Foo }",
     "forall<const N> { [u8; N]: Foo, FromEnv(S: Foo), IsUpstream(S), IsFullyVisible(S), LocalImplAllowed(S: Foo), DownstreamType(S), Reveal, ObjectSafe(Foo) }",
+    "forall<'a, T> { exists<U> { S: Tr<A<'a, T> = U>, <S as Tr>::A<'a, u8> = U, Normalize(<S as Tr>::A<'static, T> -> U) } }",
 ];
 
 fn tokenize(s: &str) -> Vec<String> {
-    let mut out = vec![];
+    let mut out: Vec<String> = vec![];
     let mut cur = String::new();
-    for ch in s.chars() {
+    let chars: Vec<char> = s.chars().collect();
+    let mut i = 0;
+    while i < chars.len() {
+        let ch = chars[i];
         if ch.is_alphanumeric() || ch == '_' || ch == '\'' {
             cur.push(ch);
-        } else {
-            if !cur.is_empty() {
-                out.push(std::mem::take(&mut cur));
-            }
-            if !ch.is_whitespace() {
-                out.push(ch.to_string());
-            }
+            i += 1;
+            continue;
         }
+        if !cur.is_empty() {
+            out.push(std::mem::take(&mut cur));
+        }
+        // multi-character operators stay one token, so that re-joining the tokens with spaces gives back valid text
+        let rest: String = chars[i..chars.len().min(i + 3)].iter().collect();
+        if let Some(op) = ["...", "::", "->", ":-", "=>"].iter().find(|op| rest.starts_with(**op)) {
+            out.push(op.to_string());
+            i += op.len();
+            continue;
+        }
+        if !ch.is_whitespace() {
+            out.push(ch.to_string());
+        }
+        i += 1;
     }
     if !cur.is_empty() {
         out.push(cur);
@@ -224,8 +239,44 @@ fn plant(t: &mut Tape, toks: &mut Vec<String>) {
     if idents.is_empty() {
         return;
     }
-    let i = idents[t.choose(idents.len())];
-    match t.choose(7) {
+    let mut i = idents[t.choose(idents.len())];
+    let mut kind = t.choose(9);
+    if kind >= 7 {
+        // arity errors on a name that carries arguments (generic associated types, traits, structs): drop all of them or
+        // only the last one
+        let with_args: Vec<usize> = idents.iter().copied().filter(|k| *k + 1 < toks.len() && toks[*k + 1] == "<").collect();
+        if with_args.is_empty() {
+            kind = 5;
+        } else {
+            i = with_args[t.choose(with_args.len())];
+            if kind == 8 {
+                // remove the last argument only: find the matching '>' and the last top-level ','
+                let mut depth = 0;
+                let mut last_comma = None;
+                let mut close = None;
+                for j in i + 1..toks.len() {
+                    match toks[j].as_str() {
+                        "<" => depth += 1,
+                        ">" => {
+                            depth -= 1;
+                            if depth == 0 {
+                                close = Some(j);
+                                break;
+                            }
+                        }
+                        "," if depth == 1 => last_comma = Some(j),
+                        _ => {}
+                    }
+                }
+                if let (Some(c), Some(e)) = (last_comma, close) {
+                    toks.drain(c..e);
+                    return;
+                }
+            }
+            kind = 5;
+        }
+    }
+    match kind {
         0 => toks[i] = "Unknown".into(),
         1 => {
             // add arguments to a name
